@@ -13,6 +13,10 @@ Decided (structural clauses):
         buffer is cleared before it is replayed.
   R07.4 human.parse_size: None -> None, int literal, suffix table b,k,m,g,t = 1024^0..4, else ValueError;
         Proxyserver.configure validates both options through it.
+  R07.5 HTTP/2 send buffering (BufferedH2Connection): the class is interpreted from its AST (pyint; hyper-h2's send_data /
+        local_flow_control_window replaced by a recording stub with a window) over all short schedules of
+        send_data / end_stream / WINDOW_UPDATE: the bytes handed to h2 are exactly the submitted bytes, in order, END_STREAM only
+        on the last frame and only after all data.  Bounded: <= 4 operations, chunk sizes {1,3,5}, window increments {1,2,4,64}.
 Not decided: byte-level equality of relayed bodies at run time, memory use of the libraries below.
 """
 
@@ -186,7 +190,104 @@ def const_eval(node):
     raise AnalysisError(f"not a constant expression: {norm(node)}")
 
 
+H2B = "mitmproxy/proxy/layers/http/_http_h2.py"
+
+
+def r07_5(ctx):
+    import collections
+    import itertools
+    import types
+
+    from ..pyint import Interp
+    from ..pyint import Raised
+    from ..pyint import Rec
+
+    ctx.func(H2B, "BufferedH2Connection.send_data")
+    swu = ctx.func(H2B, "BufferedH2Connection.stream_window_updated")
+    ctx.func(H2B, "BufferedH2Connection.end_stream")
+    h2stub = types.SimpleNamespace(
+        stream=types.SimpleNamespace(StreamState=types.SimpleNamespace(OPEN="OPEN", HALF_CLOSED_REMOTE="HALF_CLOSED_REMOTE"), H2Stream=object),
+        events=types.SimpleNamespace(), settings=types.SimpleNamespace(), config=types.SimpleNamespace(DummyLogger=object), connection=types.SimpleNamespace(H2Connection=object), exceptions=types.SimpleNamespace(),
+    )
+    ops_send = [("send", n) for n in (1, 3, 5)]
+    ops = ops_send + [("window", w) for w in (1, 2, 4, 64)] + [("end", 0), ("end", 5)]  # ("end", n>0): last data chunk carries END_STREAM itself
+    limit = 4 if ctx.tier == "thorough" else 3
+    n = 0
+    bad = {}
+    for length in range(1, limit + 1):
+        for seq in itertools.product(ops, repeat=length):
+            if not any(o[0] == "send" or (o[0] == "end" and o[1]) for o in seq):
+                continue
+            if any(o[0] != "window" for o in seq[[i for i, o in enumerate(seq) if o[0] == "end"][0] + 1 :]) if any(o[0] == "end" for o in seq) else False:
+                continue  # nothing is sent after the stream was ended
+            for init_window in (0, 2):
+                world = {"window": init_window, "sent": [], "ended": False}
+
+                def h2_send_data(stream_id, data=b"", end_stream=False, pad_length=None, _w=world):
+                    if len(data) > _w["window"]:
+                        raise RuntimeError("FlowControlError")  # hyper-h2 raises when the window is exceeded
+                    _w["window"] -= len(data)
+                    _w["sent"].append((bytes(data), bool(end_stream)))
+
+                it = Interp(ctx.model, trusted_modules={"collections": collections, "h2": h2stub, "logging": types.SimpleNamespace(getLogger=lambda *a: None, DEBUG=10)})
+                conn = Rec(
+                    "BufferedH2Connection", _impl=(H2B, "BufferedH2Connection"),
+                    stream_buffers=collections.defaultdict(collections.deque), stream_trailers={}, max_outbound_frame_size=4,
+                    streams={1: Rec("H2Stream", state_machine=Rec("SM", state="OPEN"))},
+                    local_flow_control_window=(lambda sid, _w=world: _w["window"]),
+                    _super_stubs={"send_data": h2_send_data},
+                )
+                submitted = b""
+                counter = 0
+                err = None
+                try:
+                    for op, arg in seq:
+                        if op == "send":
+                            data = bytes((65 + (counter + i) % 26) for i in range(arg))
+                            counter += arg
+                            submitted += data
+                            it.method(conn, "send_data", 1, data)
+                        elif op == "end" and arg:
+                            world["ended"] = True
+                            data = bytes((65 + (counter + i) % 26) for i in range(arg))
+                            counter += arg
+                            submitted += data
+                            it.method(conn, "send_data", 1, data, True)
+                        elif op == "end":
+                            world["ended"] = True
+                            it.method(conn, "end_stream", 1)
+                        else:
+                            world["window"] += arg
+                            it.method(conn, "stream_window_updated", 1)
+                    # drain: a large window update must flush everything that is still buffered
+                    world["window"] += 1000
+                    it.method(conn, "stream_window_updated", 1)
+                except Raised as r:
+                    err = f"raises {r.name}"
+                n += 1
+                sent = b"".join(d for d, _ in world["sent"])
+                ends = [i for i, (_, e) in enumerate(world["sent"]) if e]
+                problem = err
+                if problem is None and sent != submitted:
+                    problem = f"bytes handed to h2 are {sent!r}, submitted {submitted!r}"
+                if problem is None and world["ended"] and ends != [len(world["sent"]) - 1]:
+                    problem = f"END_STREAM on frames {ends} of {len(world['sent'])}"
+                if problem is None and not world["ended"] and ends:
+                    problem = "END_STREAM sent although the stream was not ended"
+                if problem:
+                    bad.setdefault(problem.split(",")[0][:60], (seq, init_window, problem))
+    ctx.cells += n
+    for k, (seq, w0, problem) in sorted(bad.items()):
+        ctx.fail("R07.5", (H2B, "BufferedH2Connection", swu), f"schedule {list(seq)} (initial window {w0}): {problem[:120]}",
+                 "buffered HTTP/2 body data is not handed to the peer exactly once, in order, with END_STREAM last")
+    if not bad:
+        ctx.ok("R07.5", f"{n} schedules of send_data/end_stream/WINDOW_UPDATE relay the submitted bytes in order")
+    ctx.bounds.append(f"R07.5: schedules of at most {limit} operations, chunk sizes 1/3/5 (frame size 4), window increments 1/2/4/64")
+
+
 def check(ctx):
+    ctx.rule("R07.5", "BufferedH2Connection relays buffered body bytes exactly once, in order, END_STREAM last (interpreted over short schedules)")
+    ctx.guard(r07_5, ctx)
     ctx.exhaustive = True
     ctx.bounds.append("loops unrolled once in path enumeration; the check_body_size table enumerates its abstract domain completely")
     ctx.rule("R07.1", "check_body_size decision table equals the reference (abort before stream, strict comparisons, abort trace shape)")
@@ -388,6 +489,9 @@ def _parents(n):
 
 I = REL
 MUTANTS = [
+    Mutant("h2-remainder-requeued-at-the-back", H2B, "                self.stream_buffers[stream_id].appendleft(", "                self.stream_buffers[stream_id].append(", "R07.5"),
+    Mutant("h2-partial-chunk-keeps-end-stream", H2B, "                    data=chunk.data[:available_window],\n                    end_stream=False,", "                    data=chunk.data[:available_window],\n                    end_stream=chunk.end_stream,", "R07.5"),
+    Mutant("h2-send-bypasses-buffer", H2B, "        if self.stream_buffers.get(stream_id, None):\n            # We already have some data buffered, let's append.", "        if False:\n            # We already have some data buffered, let's append.", "R07.5"),
     Mutant("limit-not-strict", I, "if max_total_size is not None and expected_size > max_total_size:", "if max_total_size is not None and expected_size >= max_total_size:", "R07.1"),
     Mutant("threshold-not-strict", I, "if max_stream_size is not None and expected_size > max_stream_size:", "if max_stream_size is not None and expected_size >= max_stream_size:", "R07.1"),
     Mutant("abort-no-client-error", I, "            yield SendHttp(\n                ResponseProtocolError(self.stream_id, err_msg, err_code),\n                self.context.client,\n            )\n            self.client_state = self.state_errored\n",
